@@ -132,13 +132,36 @@ class Ctx:
             neg = z3.Not(claim)
         return self.check(list(extra) + [neg], use_pc=use_pc, timeout_ms=timeout_ms, want_model=want_model, box=box)
 
-    def prove_positive(self, v):
-        """Is the V `v` provably > 0 under assumptions and the current path condition?"""
-        lt = v.le(0) if not v.is_const() else (v.c <= 0)
-        if isinstance(lt, bool):
-            return not lt
-        r, _ = self.check([lt], use_pc=True, timeout_ms=20000)
-        return r == "unsat"
+    def prove_positive(self, v, depth=0):
+        """Is the V `v` provably > 0 under assumptions and the current path condition?  Proved atom by atom (each
+        unknown-sign atom gets its own small query; a max variable is positive as soon as one argument is), and the
+        sign flags of atoms proved positive are upgraded - sound, and never changes the choice-point trace."""
+        if v.is_const():
+            return v.c > 0
+        if v.c <= 0:
+            return False
+        ok = True
+        for i in list(v.at):
+            term, pos = REG.atoms[i]
+            if pos:
+                continue
+            good = False
+            if z3.is_const(term) and term.decl().name() in REG.max_args and depth < 3:
+                good = any(self.prove_positive(a, depth + 1) for a in REG.max_args[term.decl().name()])
+            if not good:
+                r, _ = self.check([term <= 0], use_pc=True, timeout_ms=20000)
+                good = (r == "unsat")
+            if good and not self.pc:
+                REG.atoms[i] = (term, True)
+                if z3.is_const(term) and term.decl().name() in REG.variables:
+                    REG.variables[term.decl().name()] = (term, True)
+            elif good:
+                REG.path_pos.add(i)
+            ok = ok and good
+            if not ok:
+                return False
+        v._pos = None
+        return True
 
     # -- choice points ------------------------------------------------------
     def _next(self, kind, nalt, tag):
@@ -249,6 +272,7 @@ class Ctx:
             self.trace = []
             self.pc = []
             self.probs = []
+            REG.path_pos = set()
             if before_path is not None:
                 before_path()
             try:
@@ -268,6 +292,7 @@ class Ctx:
         self.trace = []
         self.pc = []
         self.probs = []
+        REG.path_pos = set()
         if tracing:
             _pt.TRACE.resume()
         return out
